@@ -17,7 +17,7 @@ import (
 func init() {
 	Register(&Prop{ID: "C20",
 		Meta: Meta{Level: "exploration", Race: true,
-			Rule: "worker built with the Go race detector (on the seeded, single-P runtime: the happens-before analysis is unaffected, interleavings are the simulator's); 3-8 goroutines issue drawn public operations against ONE client: Start, Client, Protocol, NegotiatedVersion, ReattachConfig, ID, Exited, Dispense, calls on dispensed clients, broker NextId/Accept/Dial with distinct IDs on the host broker and, through plugin-side commands, on the plugin broker, Ping, and in half of the runs Kill (or a plugin-side GRPCServer stop via the controller) racing the operations in flight; net/rpc, gRPC, gRPC+mux; schedule noise everywhere. Oracle: no race report whose stack contains a go-plugin frame (reports confined to harness, grpc-go or yamux are printed, not counted), no panic, no call hangs, and the multiset of NextId results on each broker has no duplicate"},
+			Rule: "worker built with the Go race detector (on the seeded, single-P runtime: the happens-before analysis is unaffected, interleavings are the simulator's); 3-8 goroutines issue drawn public operations against ONE client: Start, Client, Protocol, NegotiatedVersion, ReattachConfig, ID, Exited, Dispense, calls on dispensed clients, broker NextId/Accept/Dial with distinct IDs on the host broker and, through plugin-side commands, on the plugin broker, Ping, and in half of the runs Kill (or a plugin-side GRPCServer stop via the controller) racing the operations in flight; net/rpc, gRPC, gRPC+mux; in a fifth of the runs the plugin fails to start (exits early, closes stderr, bad handshake, silent) and 2-5 goroutines use the client-level operations and Kill; schedule and wake-up order noise everywhere. Oracle: no race report whose stack contains a go-plugin frame (reports confined to harness, grpc-go or yamux are printed, not counted), no panic, no call hangs, and the multiset of NextId results on each broker has no duplicate"},
 		Plan: func(tier string, seed uint64, stage int, prev []*h.Result) []*k.Spec {
 			if stage > 0 {
 				return nil
